@@ -10,8 +10,11 @@ EXPLANATION = ("Decides a type-based non-interference argument for `profile`: th
                "to callees); QueryStats counters are only incremented everywhere and read only by to_execution_profile; any test on "
                "an Option<&mut QueryStats> value controls only counter increments. Hence nothing derived from `profile` can reach "
                "hits, scores, totals, cursors or aggregations. For explain, only the ordering clause is decided: the loop that "
-               "copies hit.score into explanation.final_score runs after the last score-mutating call of search. That `explain` "
-               "(which legitimately steers control flow) leaves results unchanged is a semantic equality and is NOT decided.")
+               "copies hit.score into explanation.final_score runs after the last score-mutating call of search; and one necessary "
+               "condition of explain's neutrality: the per-segment rank limit used under explain is the segment's live-document count "
+               "and does not depend on limit / cursor / candidate_size (the executor cuts ties by doc id, the final sort by the "
+               "remaining keys). That `explain` (which legitimately steers control flow) leaves results unchanged otherwise is a "
+               "semantic equality and is NOT decided.")
 
 REQ = "searchlite_core::api::types::SearchRequest"
 PARAMS = "searchlite_core::api::reader::SegmentSearchParams"
